@@ -1219,7 +1219,11 @@ func mkE2E(ops []EOp, async bool, stream string) (*Case, error) {
 	var e *e2e
 	var err error
 	kind := "e2e-sync"
-	if async {
+	if len(ops) > 0 && ops[0].K == "pipe" && !async {
+		kind = "e2e-pipe"
+		async = true // K: the final table
+		e, err = runPipe(ops)
+	} else if async {
 		kind = "e2e-async"
 		e, err = runAsync(ops)
 	} else {
@@ -1266,4 +1270,163 @@ func mkE2E(ops []EOp, async bool, stream string) (*Case, error) {
 		Stream:     stream,
 		Tags:       tags,
 	}, nil
+}
+
+// ---------------------------------------------------------------- pipe sessions
+
+// A pipe session: CREATE PIPE over the tag lines M, records written to several of them (the workers copy
+// them into the pipe's partition and then wait for more, their cursors holding the sources), optionally
+// a kept cursor, a source emptied and deleted before the pipe ever saw it; then the pipe's cleanPartitions()
+// (what the pipes cleaner does every few minutes and a worker does when it ends: it asks the index for
+// every source WITHOUT acquiring it) through the hook VC14CleanPartitions, N times.  O: the table
+// after each call is the table before it (class e2e-count-leak:pipe-clean / e2e-double-release:pipe-clean);
+// then the usual quiescence.  K: KQuiet of the final table.
+func runPipe(ops []EOp) (*e2e, error) {
+	e, err := newE2E()
+	if err != nil {
+		return nil, err
+	}
+	defer e.close()
+	e.noK = true
+	ctx := context.Background()
+	name := "ppc"
+	var m []int
+	for _, op := range ops {
+		if e.stuck || e.viol != nil {
+			break
+		}
+		switch op.K {
+		case "pipe":
+			m = op.M
+			if _, err := e.srv.Exec(fmt.Sprintf("CREATE PIPE %s FROM %s", name, fromCond(op.M))); err != nil {
+				return nil, fmt.Errorf("CREATE PIPE failed: %v", err)
+			}
+			e.pipes[name] = true
+		case "evict":
+			// the clients' idle cursors go; the busy ones of the pipe's workers stay
+			e.guarded("provider-sweep", func() { cursor.VC03EvictIdle(e.srv.Provider) })
+			e.kept = map[int]*keptCur{}
+		case "write", "query", "trunc", "describe", "show", "cont":
+			who, _ := e.do(op)
+			e.counts["op:"+who]++
+		case "pipeclean":
+			// the pipe has copied everything it was told about; its workers wait for more
+			copied := WaitFor(15*time.Second, func() bool {
+				n := 0
+				for _, r := range tindex.VC14Snapshot(e.srv.TIndex) {
+					if !has(m, tagOfLine(r.Tags)) {
+						continue
+					}
+					pos, last, _, ok := e.srv.Pipes.VC10PipeState(name, r.Src)
+					if ok && pos != last {
+						return false
+					}
+					if ok {
+						n++
+					}
+				}
+				return n >= op.N
+			})
+			if !copied {
+				e.counts["pipe-did-not-catch-up"]++
+				continue
+			}
+			var before []row
+			stable := WaitFor(10*time.Second, func() bool {
+				a, err1 := e.table()
+				time.Sleep(20 * time.Millisecond)
+				b, err2 := e.table()
+				before = b
+				return err1 == nil && err2 == nil && gSnap(a) == gSnap(b)
+			})
+			if !stable {
+				e.counts["pipe-table-not-stable"]++
+				continue
+			}
+			srcs := 0
+			for _, r := range before {
+				if has(m, r.tag) && r.readers > 0 {
+					srcs++
+				}
+			}
+			if srcs >= 2 {
+				e.counts["pipe-clean-with-several-held-sources"]++
+			}
+			if e.guarded("pipe-clean", func() { e.srv.Pipes.VC14CleanPartitions(name) }) {
+				continue
+			}
+			bad := [2]string{}
+			WaitFor(5*time.Second, func() bool {
+				bad = [2]string{}
+				after, err := e.table()
+				if err != nil {
+					return false
+				}
+				am := map[int]row{}
+				for _, r := range after {
+					am[r.idx] = r
+				}
+				for _, r := range before {
+					a, ok := am[r.idx]
+					switch {
+					case !ok:
+						bad = [2]string{"e2e-deleted-while-in-use:pipe-clean", fmt.Sprintf("partition %d (p=t%d) disappeared during cleanPartitions", r.idx, r.tag)}
+					case a.excl:
+						bad = [2]string{"e2e-locked-left:pipe-clean", fmt.Sprintf("partition %d (p=t%d) is exclusively locked after cleanPartitions", r.idx, r.tag)}
+					case a.readers > r.readers:
+						bad = [2]string{"e2e-count-leak:pipe-clean", fmt.Sprintf("partition %d (p=t%d): count %d after the pipe's cleanPartitions, %d before it (the cursors of the pipe's workers and of the clients explain %d)", r.idx, r.tag, a.readers, r.readers, r.readers)}
+					case a.readers < r.readers:
+						bad = [2]string{"e2e-double-release:pipe-clean", fmt.Sprintf("partition %d (p=t%d): count %d after the pipe's cleanPartitions, %d before it", r.idx, r.tag, a.readers, r.readers)}
+					}
+					if bad[0] != "" {
+						return false
+					}
+				}
+				return true
+			})
+			if bad[0] != "" {
+				e.fail(bad[0], bad[1])
+			}
+			e.counts["op:pipe-clean"]++
+		}
+	}
+	_ = ctx
+	if err := e.quiesce("pipe-session"); err != nil {
+		return nil, err
+	}
+	return e, nil
+}
+
+func pipeCorpus() [][]EOp {
+	return [][]EOp{
+		// two sources copied, the workers hold them; cleanPartitions twice
+		{{K: "pipe", M: []int{0, 1}}, {K: "write", Tag: 0, N: 5}, {K: "write", Tag: 1, N: 5}, {K: "pipeclean", N: 2}, {K: "pipeclean", N: 2}},
+		// three sources, a kept cursor of a client on one of them, a failed write, a source that was
+		// deleted again before the cleaning (the pipe forgets it), then more data and another cleaning
+		{{K: "pipe", M: []int{0, 1, 2, 3}}, {K: "write", Tag: 0, N: 40}, {K: "write", Tag: 1, N: 3}, {K: "write", Tag: 2, N: 3},
+			{K: "query", M: []int{1}, N: 1, Keep: true, Cur: 0}, {K: "write", Tag: 3, N: 1, Fail: "first"}, {K: "trunc", M: []int{3}},
+			{K: "pipeclean", N: 3}, {K: "write", Tag: 1, N: 4, Fail: "middle"}, {K: "write", Tag: 0, N: 2}, {K: "pipeclean", N: 3}, {K: "evict"}, {K: "pipeclean", N: 3}},
+	}
+}
+
+func genPipeOps(r *Rng) []EOp {
+	n := r.PickInt(2, 3, 4)
+	m := make([]int, n)
+	for i := range m {
+		m[i] = i
+	}
+	ops := []EOp{{K: "pipe", M: m}}
+	for t := 0; t < n; t++ {
+		ops = append(ops, EOp{K: "write", Tag: t, N: r.PickInt(1, 3, 40), Fail: r.PickStr("", "", "", "middle")})
+	}
+	if r.Chance(1, 2) {
+		ops = append(ops, EOp{K: "query", M: subset(r, n), N: 1, Keep: true, Cur: 0})
+	}
+	for k := r.Range(1, 3); k > 0; k-- {
+		ops = append(ops, EOp{K: "pipeclean", N: 2})
+		if r.Chance(1, 2) {
+			ops = append(ops, EOp{K: "write", Tag: r.Intn(n), N: r.PickInt(1, 5)})
+		}
+	}
+	return ops
 }
